@@ -397,6 +397,28 @@ theorem fmt_mono (p : Nat) {x y : Rat} (h : x ≤ y) : (fmt p x).val ≤ (fmt p 
   have : x * ((10 ^ p : Nat) : Rat) ≤ y * ((10 ^ p : Nat) : Rat) := mul_le_mul_of_nonneg_right h hq.le
   exact_mod_cast roundHalfEven_mono this
 
+/-- Decimals with the same number of digits are equal when their values are. -/
+theorem fmt_val_inj (p : Nat) {a b : Rat} (h : (fmt p a).val = (fmt p b).val) : fmt p a = fmt p b := by
+  have hq := pow10_pos p
+  simp only [fmt, Dec.val] at h
+  rw [div_left_inj' hq.ne'] at h
+  simp only [fmt]
+  congr 1
+  exact_mod_cast h
+
+/-- The tier type of `write_textgrid`: the one asked for, else the inference at the print precision. -/
+theorem isPointTier_eq_infer (t : List Timed) (o : TgWriteOpts) :
+    isPointTier t o = o.pointTier.getD (inferPointAt o.precision t) := by
+  unfold isPointTier inferPointAt
+  cases o.pointTier <;> rfl
+
+/-- Judging the inference at the print precision is `write_textgrid`. -/
+theorem writeTextGridInferAt_precision (t : List Timed) (o : TgWriteOpts) :
+    writeTextGridInferAt o.precision t o = writeTextGrid t o := by
+  have hb : tgBody t { o with pointTier := some (o.pointTier.getD (inferPointAt o.precision t)) } = tgBody t o := by
+    simp only [tgBody, isPointTier_eq_infer, Option.getD_some]
+  simp only [writeTextGridInferAt, writeTextGrid, hb]
+
 /-! ### TextGrid: the fill loop -/
 
 /-- `specFill` without the closing interval. -/
